@@ -362,7 +362,130 @@ def comprehensions_to_loops(tree: ast.Module) -> ast.Module:
     return tree
 
 
-VIEWS = [("inline", [inline_private_helpers]), ("loops", [comprehensions_to_loops]), ("inline+loops", [inline_private_helpers, comprehensions_to_loops])]
+_EXIT = (ast.Return, ast.Raise, ast.Continue, ast.Break)
+
+
+def _exits(stmts: list[ast.stmt]) -> bool:
+    if not stmts:
+        return False
+    last = stmts[-1]
+    if isinstance(last, _EXIT):
+        return True
+    if isinstance(last, ast.If) and last.orelse:
+        return _exits(last.body) and _exits(last.orelse)
+    return False
+
+
+_NEG = {ast.IsNot: ast.Is, ast.NotEq: ast.Eq, ast.NotIn: ast.In}
+
+
+def _positive(st: ast.If) -> ast.If:
+    """`if not c / a is not b / a != b / a not in b: A else: B`  ->  positive test, branches swapped (only with a non-empty else)."""
+    if not st.orelse:
+        return st
+    t = st.test
+    if isinstance(t, ast.UnaryOp) and isinstance(t.op, ast.Not):
+        st.test, st.body, st.orelse = t.operand, st.orelse, st.body
+    elif isinstance(t, ast.Compare) and len(t.ops) == 1 and type(t.ops[0]) in _NEG:
+        st.test = ast.Compare(left=t.left, ops=[_NEG[type(t.ops[0])]()], comparators=t.comparators)
+        st.body, st.orelse = st.orelse, st.body
+    return st
+
+
+def control_flow_normal_form(tree: ast.Module) -> ast.Module:
+    """Structured normal form of early exits: `if c: <exit>` followed by R becomes `if c: <exit> else: R`; a `try ... else` whose handlers all exit
+    continues after the try; negative tests with an else are made positive; a trailing `continue` is dropped.  Guard inversion, early return /
+    continue and nested if/else are the same program in this form."""
+    tree = copy.deepcopy(tree)
+
+    def norm_block(stmts: list[ast.stmt]) -> list[ast.stmt]:
+        out: list[ast.stmt] = []
+        for i, st in enumerate(stmts):
+            if isinstance(st, (ast.FunctionDef, ast.AsyncFunctionDef, ast.ClassDef)):
+                out.append(st)
+                continue
+            for fld in ("body", "orelse", "finalbody"):
+                sub = getattr(st, fld, None)
+                if isinstance(sub, list) and sub and isinstance(sub[0], ast.stmt):
+                    setattr(st, fld, norm_block(sub))
+            if isinstance(st, ast.Try):
+                for h in st.handlers:
+                    h.body = norm_block(h.body)
+                if st.orelse and not st.finalbody and st.handlers and all(_exits(h.body) for h in st.handlers):
+                    rest = st.orelse
+                    st.orelse = []
+                    out.append(st)
+                    return out + norm_block(rest + stmts[i + 1:])
+            if isinstance(st, (ast.For, ast.While, ast.AsyncFor)):
+                st.body = _drop_tail_continue(st.body)
+            if isinstance(st, ast.If):
+                rest = stmts[i + 1:]
+                if not st.orelse and _exits(st.body) and rest:
+                    st.orelse = norm_block(rest)
+                    out.append(_positive(st))
+                    return out
+                st = _positive(st)
+            out.append(st)
+        return out
+
+    def _drop_tail_continue(body: list[ast.stmt]) -> list[ast.stmt]:
+        if not body:
+            return body
+        last = body[-1]
+        if isinstance(last, ast.Continue):
+            body = body[:-1] or [ast.Pass()]
+        elif isinstance(last, ast.If):
+            last.body = _drop_tail_continue(last.body)
+            if last.orelse:
+                last.orelse = _drop_tail_continue(last.orelse)
+        return body
+
+    for n in ast.walk(tree):
+        if isinstance(n, (ast.FunctionDef, ast.AsyncFunctionDef)):
+            n.body = norm_block(n.body)
+    ast.fix_missing_locations(tree)
+    return tree
+
+
+def unroll_literal_comprehensions(tree: ast.Module) -> ast.Module:
+    """`[f(x) for x in (a, b)]` -> `[f(a), f(b)]` (single generator over a tuple / list display of at most 4 plain names or constants, no condition)."""
+    tree = copy.deepcopy(tree)
+
+    class T(ast.NodeTransformer):
+        def _unroll(self, n):
+            if len(n.generators) != 1:
+                return None
+            g = n.generators[0]
+            if g.ifs or g.is_async or not isinstance(g.target, ast.Name) or not isinstance(g.iter, (ast.Tuple, ast.List)) or not (1 <= len(g.iter.elts) <= 4):
+                return None
+            if not all(isinstance(e, (ast.Name, ast.Constant)) for e in g.iter.elts):
+                return None
+            if any(isinstance(x, (ast.Lambda, ast.ListComp, ast.GeneratorExp, ast.SetComp, ast.DictComp, ast.NamedExpr)) for x in ast.walk(n.elt)):
+                return None
+            return [_Renamer({g.target.id: e}).visit(copy.deepcopy(n.elt)) for e in g.iter.elts]
+
+        def visit_ListComp(self, n):
+            self.generic_visit(n)
+            el = self._unroll(n)
+            return ast.copy_location(ast.List(elts=el, ctx=ast.Load()), n) if el is not None else n
+
+        def visit_Call(self, n):
+            self.generic_visit(n)
+            if len(n.args) >= 1 and isinstance(n.args[0], ast.GeneratorExp):
+                el = self._unroll(n.args[0])
+                if el is not None:
+                    n.args[0] = ast.copy_location(ast.List(elts=el, ctx=ast.Load()), n.args[0])
+            return n
+
+    tree = T().visit(tree)
+    ast.fix_missing_locations(tree)
+    return tree
+
+
+VIEWS = [("inline", [inline_private_helpers, unroll_literal_comprehensions]), ("loops", [unroll_literal_comprehensions, comprehensions_to_loops]),
+         ("inline+loops", [inline_private_helpers, unroll_literal_comprehensions, comprehensions_to_loops]),
+         ("cfnorm", [control_flow_normal_form]),
+         ("inline+loops+cfnorm", [inline_private_helpers, unroll_literal_comprehensions, comprehensions_to_loops, control_flow_normal_form])]
 
 
 def view_overlays(sources: dict[str, str], keep: frozenset = frozenset()):
